@@ -152,7 +152,7 @@ func c11Run(c *Ctx) {
 	}
 	c11One(c, pki, c11State{Name: "idle", Conns: 40})
 	// clients that keep connecting (and then sit idle) while Stop runs, on a server with a ten-minute read timeout
-	for i := 0; i < c.N(6, 100); i++ {
+	for i := 0; i < c.N(80, 1500); i++ {
 		c11One(c, pki, c11State{Name: "connecting-while-stopping", Conns: 4 + i%8, Second: i%4 == 3})
 	}
 	for rep := 0; rep < reps; rep++ {
